@@ -349,6 +349,16 @@ class Event(Obj):
         self.set(st, 'flag', z3.BoolVal(False))
         return [('ok', st, NONE)]
 
+    def m_wait(self, ex, st, args, kwargs, node):
+        # wait(timeout): returns the flag as it is when the wait ends (others may have set it meanwhile); an untimed wait only returns once it is set
+        st = st.fork()
+        self.havoc(ex, st)
+        timed = bool(args) or 'timeout' in kwargs
+        st.ghost['#blocking'] = st.ghost.get('#blocking', ()) + ((node.lineno, 'event.wait(timeout)' if timed else 'event.wait()', ()),)
+        if not timed:
+            st.assume(self.get(st, 'flag'))
+        return [('ok', st, self.get(st, 'flag'))]
+
 
 # ------------------------------------------------------------------ generic records / self objects
 class Rec(Obj):
